@@ -206,6 +206,7 @@ DEFAULT_PROFILE = {
     "allow_hooks": True,
     "p_lazy": 0.6,
     "force_kinds": [],
+    "allow_new_shapes": False,
 }
 
 
@@ -286,6 +287,7 @@ def gen_class_spec(src, profile=None):
     if p["allow_key"] and src.chance(0.25):
         host["options"]["key"] = "name"
         host["key_default"] = gen_default(src, "str") if src.chance(0.4) else ["none"]
+        host["key_pos"] = src.randint(0, len(attrs)) if src.chance(0.6) else 0
     if p["allow_frozen"] and src.chance(0.5):
         host["options"]["frozen"] = True
     if p["allow_class_dnc"] and src.chance(0.1):
@@ -309,6 +311,10 @@ def gen_class_spec(src, profile=None):
     if p["allow_hooks"]:
         host["post_init"] = src.chance(0.2)
         host["post_copy"] = src.chance(0.25)
+    if p["allow_new_shapes"] and src.chance(0.5):
+        # where instance creation comes from: the class's own __new__, a plain base class providing it, a plain
+        # mix-in in front (nothing of its own), or the mix-in in front of the base that provides it
+        host["new_shape"] = src.choice(["own", "base", "mixin", "mixin_base"])
     spec = {
         "leaf": {"frozen": False, "post_copy": p["allow_hooks"] and src.chance(0.15)},
         "kitem": {"frozen": False},
@@ -332,11 +338,28 @@ def gen_class_spec(src, profile=None):
                 sub["extra"].append({"name": nm[-1], "kind": extra_kind,
                                      "default": gen_default(src, extra_kind), "flags": {}})
         sub["options"] = {"bootstrap": not src.chance(p["p_lazy"])}
+        if p["allow_new_shapes"] and src.chance(0.4):
+            sub["mixin_first"] = True  # class Sub(Mixin, Host)
         if skind == "spec":
             # keep per-attribute do_not_copy unambiguous across the spec subclass
             dnc = [a["name"] for a in attrs if a.get("flags", {}).get("do_not_copy")]
             if isinstance(host["options"].get("do_not_copy"), list):
                 dnc += [n2 for n2 in host["options"]["do_not_copy"] if n2 not in dnc]
+            # ... or differing from the parent's by one attribute: the subclass's own declaration then decides for its
+            # instances, and the parent's instances keep the parent's (Attr-flagged attributes stay in both lists)
+            if p["allow_attr_dnc"] and host["options"].get("do_not_copy") is not True:
+                mode = src.choice(["same", "same", "add_one", "drop_one"])
+                flagged = {a["name"] for a in attrs if a.get("flags", {}).get("do_not_copy")}
+                touched = {e["name"] for e in sub["redeclare"] + sub["redefault"]}
+                if mode == "add_one":
+                    cands = [a["name"] for a in attrs if a["name"] not in dnc and a["name"] not in touched]
+                    if cands:
+                        dnc = dnc + [src.choice(cands)]
+                elif mode == "drop_one":
+                    cands = [n2 for n2 in dnc if n2 not in flagged and n2 not in touched]
+                    if cands:
+                        x = src.choice(cands)
+                        dnc = [n2 for n2 in dnc if n2 != x]
             if dnc:
                 sub["options"]["do_not_copy"] = dnc
         spec["sub"] = sub
@@ -429,10 +452,11 @@ def bad_values(kind):
         return [None, ["float", "0.5"], ["list", [1]]]
     if kind == "lit":
         return ["c", 0, None, ""]
+    # (floats equal to conforming ints: right value, wrong type -- whatever an earlier verdict on the int was)
     if kind == "bounded":
-        return [-1, "s", None, ["float", "2.5"]]
+        return [-1, "s", None, ["float", "2.5"], ["float", "1.0"], ["float", "10.0"], ["float", "0.0"]]
     if kind == "validated":
-        return [1, "s", None, 3]
+        return [1, "s", None, 3, ["float", "2.0"], ["float", "8.0"], ["float", "0.0"]]
     if kind == "any":
         return [["mod", "os"]]  # nothing is ill-typed for Any
     if kind == "list_int":
@@ -731,14 +755,20 @@ def materialise(spec, faults, name_suffix=""):
     ns = {"__module__": "specsim.generated", "__qualname__": "Host" + name_suffix}
     ann = {}
     info = {}
-    if h["options"].get("key"):
+    def declare_key():
         ann["name"] = str
         kd = h.get("key_default", ["none"])
         ent = _default_entry(kd, {}, classes, faults, "name")
         if ent is not _NOTHING:
             ns["name"] = ent
         info["name"] = {"kind": "str", "default": kd, "flags": {}, "is_key": True}
-    for a in h["attrs"]:
+
+    # the key attribute is declared at any position of the class body (declaration order is what repr / eq / the
+    # constructor signature follow, wherever the key sits)
+    key_pos = h.get("key_pos", 0) if h["options"].get("key") else None
+    for pos, a in enumerate(h["attrs"]):
+        if key_pos == pos:
+            declare_key()
         ann[a["name"]] = annotation_for(a["kind"], classes, faults)
         ent = _default_entry(a["default"], a.get("flags", {}), classes, faults, a["name"])
         if ent is not _NOTHING:
@@ -747,6 +777,8 @@ def materialise(spec, faults, name_suffix=""):
         if a.get("prepare"):
             fn = PREPARERS[a["prepare"]]
             ns[f"_prepare_{a['name']}"] = make_callback(faults, f"prepare:{a['name']}", fn)
+    if key_pos is not None and "name" not in ann:
+        declare_key()
     ns["__annotations__"] = ann
     for pr in h.get("props", []):
         g = make_getter(faults, pr["name"], pr["reads"])
@@ -775,7 +807,28 @@ def materialise(spec, faults, name_suffix=""):
                 fn = ITEM_PREPARERS[a["prepare_item"]]
                 ns[f"_prepare_{sing}"] = make_callback(faults, f"prepare_item:{a['name']}", fn)
     opts = dict(h["options"])
-    Host = type("Host" + name_suffix, (), ns)
+    B.new_log = new_log = []
+
+    def _nm(cls):
+        return cls.__name__[:len(cls.__name__) - len(name_suffix)] if name_suffix else cls.__name__
+
+    class Mixin:
+        def describe(self):
+            return type(self).__name__
+
+    class NewBase:
+        def __new__(cls, *args, **kwargs):
+            new_log.append("base:" + _nm(cls))
+            return object.__new__(cls)
+
+    shape = h.get("new_shape")
+    bases = {None: (), "own": (), "base": (NewBase,), "mixin": (Mixin,), "mixin_base": (Mixin, NewBase)}[shape]
+    if shape == "own":
+        def own_new(cls, *args, **kwargs):
+            new_log.append("own:" + _nm(cls))
+            return object.__new__(cls)
+        ns["__new__"] = own_new
+    Host = type("Host" + name_suffix, bases, ns)
     Host = spec_class(**opts)(Host)
     classes["host"] = Host
     B.attr_info["host"] = info
@@ -809,7 +862,13 @@ def materialise(spec, faults, name_suffix=""):
                         sing = f"{a['name']}_item"
                     sinfo[a["name"]]["item_name"] = sing
             sns["__annotations__"] = sann
-        Sub = type("Sub" + name_suffix, (Host,), sns)
+        if sub.get("mixin_first"):
+            class SubMixin:
+                def describe_sub(self):
+                    return type(self).__name__
+            Sub = type("Sub" + name_suffix, (SubMixin, Host), sns)
+        else:
+            Sub = type("Sub" + name_suffix, (Host,), sns)
         if sub["kind"] == "spec":
             Sub = spec_class(**sub.get("options", {}))(Sub)
         classes["sub"] = Sub
